@@ -15,29 +15,40 @@
              "racy"      createCall looks up and registers in two critical sections
              "nocheck"   (rm) create without consulting the resource map first
              "outercheck" (rm) the map is consulted before entering the flight instead of inside
-                         it: a caller that missed while the first create ran creates again      *)
+                         it: a caller that missed while the first create ran creates again
+             "shared"    all objects (Objs: the SingleFlight groups / ResourceManagers the callers use)
+                         are backed by ONE calls map indexed by the key string alone, e.g. a
+                         package-level flight group handed to every NewResourceManager(): a call on
+                         object B joins the execution object A runs for the same key string, waits for
+                         it and is handed A's value (for "rm": an instance B never stored)
+
+   Objects: every call is made on one object of Objs with a key of Keys.  The calls map of the code
+   as it is belongs to the object (index <<object, key>>), as does the resource map.                *)
 EXTENDS Flight
 
-CONSTANTS Procs, Keys, MaxCalls, Variant, Algo
+CONSTANTS Procs, Objs, Keys, MaxCalls, Variant, Algo
 
 VARIABLES
   pc, n, key, obj, rv, tmp,
-  calls,   \* flightGroup.calls: key |-> call object (identified by the call that created it)
+  mgr,     \* the object (group / manager) the current call of a process is made on
+  calls,   \* flightGroup.calls: <<object, key>> |-> call object (identified by the call that created it)
   wg,      \* call object |-> WaitGroup counter
   cval,    \* call object |-> [v, err] stored by makeCall
-  res      \* ResourceManager.resources: key |-> instance
+  res      \* ResourceManager.resources: <<object, key>> |-> instance
 
-ivars == <<pc, n, key, obj, rv, tmp, calls, wg, cval, res>>
+ivars == <<pc, n, key, obj, rv, tmp, mgr, calls, wg, cval, res>>
 vars == <<pvars, ivars>>
 
 Cid(p) == p * 10 + n[p]                  \* id of p's current call; also the value / error code it produces
 None == [v |-> 0, err |-> 0, fresh |-> 2]
+FKey(p) == IF Variant = "shared" THEN key[p] ELSE <<mgr[p], key[p]>>   \* index into the calls map
+RKey(p) == <<mgr[p], key[p]>>                                          \* index into the resource map
 
 IInit ==
   /\ PInit(IF Algo = "rm" THEN "rm" ELSE "sf")
   /\ pc = [p \in Procs |-> "idle"] /\ n = [p \in Procs |-> 0]
   /\ key = [p \in Procs |-> 0] /\ obj = [p \in Procs |-> 0]
-  /\ rv = [p \in Procs |-> None] /\ tmp = [p \in Procs |-> 0]
+  /\ rv = [p \in Procs |-> None] /\ tmp = [p \in Procs |-> 0] /\ mgr = [p \in Procs |-> 0]
   /\ calls = <<>> /\ wg = <<>> /\ cval = <<>> /\ res = <<>>
 
 Goto(p, lbl) == pc' = [pc EXCEPT ![p] = lbl]
@@ -45,19 +56,20 @@ Goto(p, lbl) == pc' = [pc EXCEPT ![p] = lbl]
 \* Do / DoEx / GetResource invoked
 Begin(p) ==
   /\ pc[p] = "idle" /\ n[p] < MaxCalls
-  /\ \E k \in Keys : key' = [key EXCEPT ![p] = k] /\ PCallStart(Cid(p), k)
+  /\ \E o \in Objs, k \in Keys : /\ key' = [key EXCEPT ![p] = k] /\ mgr' = [mgr EXCEPT ![p] = o]
+                                /\ PCallStart(Cid(p), o, k)
   /\ Goto(p, IF Algo = "rm" /\ Variant = "outercheck" THEN "pre" ELSE "create")
   /\ UNCHANGED <<n, obj, rv, tmp, calls, wg, cval, res>>
 
 PreCheck(p) ==     \* only in the "outercheck" variant
   /\ pc[p] = "pre"
-  /\ IF key[p] \in DOMAIN res
-       THEN rv' = [rv EXCEPT ![p] = [v |-> res[key[p]], err |-> 0, fresh |-> 2]] /\ Goto(p, "ret")
+  /\ IF RKey(p) \in DOMAIN res
+       THEN rv' = [rv EXCEPT ![p] = [v |-> res[RKey(p)], err |-> 0, fresh |-> 2]] /\ Goto(p, "ret")
        ELSE Goto(p, "create") /\ UNCHANGED rv
-  /\ UNCHANGED <<pvars, n, key, obj, tmp, calls, wg, cval, res>>
+  /\ UNCHANGED <<mgr, pvars, n, key, obj, tmp, calls, wg, cval, res>>
 
 Register(p) ==
-  /\ calls' = (key[p] :> Cid(p)) @@ calls
+  /\ calls' = (FKey(p) :> Cid(p)) @@ calls
   /\ wg' = (Cid(p) :> 1) @@ wg
   /\ obj' = [obj EXCEPT ![p] = Cid(p)]
   /\ Goto(p, "exec")
@@ -65,18 +77,18 @@ Register(p) ==
 \* createCall: one critical section under g.lock
 CreateCall(p) ==
   /\ pc[p] = "create"
-  /\ IF key[p] \in DOMAIN calls
-       THEN /\ obj' = [obj EXCEPT ![p] = calls[key[p]]]
+  /\ IF FKey(p) \in DOMAIN calls
+       THEN /\ obj' = [obj EXCEPT ![p] = calls[FKey(p)]]
             /\ Goto(p, "wait")
             /\ UNCHANGED <<calls, wg>>
        ELSE IF Variant = "racy"
          THEN Goto(p, "insert") /\ UNCHANGED <<obj, calls, wg>>
          ELSE Register(p)
-  /\ UNCHANGED <<pvars, n, key, rv, tmp, cval, res>>
+  /\ UNCHANGED <<mgr, pvars, n, key, rv, tmp, cval, res>>
 
 Insert(p) ==      \* only in the "racy" variant: second critical section
   /\ pc[p] = "insert" /\ Register(p)
-  /\ UNCHANGED <<pvars, n, key, rv, tmp, cval, res>>
+  /\ UNCHANGED <<mgr, pvars, n, key, rv, tmp, cval, res>>
 
 \* c.wg.Wait() returned: the joiner reads c.val, c.err
 Wait(p) ==
@@ -85,16 +97,16 @@ Wait(p) ==
                               THEN [v |-> cval[obj[p]].v, err |-> cval[obj[p]].err, fresh |-> 0]
                               ELSE [v |-> 0, err |-> 0, fresh |-> 0]]
   /\ Goto(p, "ret")
-  /\ UNCHANGED <<pvars, n, key, obj, tmp, calls, wg, cval, res>>
+  /\ UNCHANGED <<mgr, pvars, n, key, obj, tmp, calls, wg, cval, res>>
 
 \* ResourceManager: the fn given to the flight first looks the key up under RLock
 RmCheck(p) ==
   /\ pc[p] = "exec" /\ Algo = "rm"
-  /\ IF key[p] \in DOMAIN res /\ Variant \notin {"nocheck", "outercheck"}
-       THEN /\ cval' = (obj[p] :> Res(res[key[p]], 0)) @@ cval
+  /\ IF RKey(p) \in DOMAIN res /\ Variant \notin {"nocheck", "outercheck"}
+       THEN /\ cval' = (obj[p] :> Res(res[RKey(p)], 0)) @@ cval
             /\ Goto(p, "del")
        ELSE Goto(p, "fnstart") /\ UNCHANGED cval
-  /\ UNCHANGED <<pvars, n, key, obj, rv, tmp, calls, wg, res>>
+  /\ UNCHANGED <<mgr, pvars, n, key, obj, rv, tmp, calls, wg, res>>
 
 \* the supplied function (fn / create) starts
 FnStart(p) ==
@@ -102,7 +114,7 @@ FnStart(p) ==
      \/ pc[p] = "fnstart"
   /\ PFnStart(Cid(p))
   /\ Goto(p, "fn")
-  /\ UNCHANGED <<n, key, obj, rv, tmp, calls, wg, cval, res>>
+  /\ UNCHANGED <<mgr, n, key, obj, rv, tmp, calls, wg, cval, res>>
 
 \* ... and returns a value or an error, distinct per execution;  c.val, c.err = fn()
 FnEnd(p) ==
@@ -114,15 +126,15 @@ FnEnd(p) ==
        /\ IF Algo = "rm" /\ ok
             THEN /\ tmp' = [tmp EXCEPT ![p] = v] /\ Goto(p, "store") /\ UNCHANGED cval
             ELSE /\ cval' = (obj[p] :> Res(v, e)) @@ cval /\ Goto(p, "del") /\ UNCHANGED tmp
-  /\ UNCHANGED <<n, key, obj, rv, calls, wg, res>>
+  /\ UNCHANGED <<mgr, n, key, obj, rv, calls, wg, res>>
 
 \* ResourceManager: manager.resources[key] = resource under the write lock
 Store(p) ==
   /\ pc[p] = "store"
-  /\ res' = (key[p] :> tmp[p]) @@ res
+  /\ res' = (RKey(p) :> tmp[p]) @@ res
   /\ cval' = (obj[p] :> Res(tmp[p], 0)) @@ cval
   /\ Goto(p, "del")
-  /\ UNCHANGED <<pvars, n, key, obj, rv, tmp, calls, wg>>
+  /\ UNCHANGED <<mgr, pvars, n, key, obj, rv, tmp, calls, wg>>
 
 Keep(p) == Variant = "keeperr" /\ cval[obj[p]].err # 0
 
@@ -131,18 +143,18 @@ Del(p) ==
   /\ pc[p] = "del"
   /\ IF Variant = "swap"
        THEN wg' = [wg EXCEPT ![obj[p]] = 0] /\ UNCHANGED calls
-       ELSE calls' = (IF Keep(p) THEN calls ELSE Restrict(calls, DOMAIN calls \ {key[p]})) /\ UNCHANGED wg
+       ELSE calls' = (IF Keep(p) THEN calls ELSE Restrict(calls, DOMAIN calls \ {FKey(p)})) /\ UNCHANGED wg
   /\ Goto(p, "done")
-  /\ UNCHANGED <<pvars, n, key, obj, rv, tmp, cval, res>>
+  /\ UNCHANGED <<mgr, pvars, n, key, obj, rv, tmp, cval, res>>
 
 Done(p) ==
   /\ pc[p] = "done"
   /\ IF Variant = "swap"
-       THEN calls' = Restrict(calls, DOMAIN calls \ {key[p]}) /\ UNCHANGED wg
+       THEN calls' = Restrict(calls, DOMAIN calls \ {FKey(p)}) /\ UNCHANGED wg
        ELSE wg' = [wg EXCEPT ![obj[p]] = 0] /\ UNCHANGED calls
   /\ rv' = [rv EXCEPT ![p] = [v |-> cval[obj[p]].v, err |-> cval[obj[p]].err, fresh |-> 1]]
   /\ Goto(p, "ret")
-  /\ UNCHANGED <<pvars, n, key, obj, tmp, cval, res>>
+  /\ UNCHANGED <<mgr, pvars, n, key, obj, tmp, cval, res>>
 
 \* the call returns to its caller
 Ret(p) ==
@@ -151,7 +163,7 @@ Ret(p) ==
   /\ n' = [n EXCEPT ![p] = @ + 1]
   /\ rv' = [rv EXCEPT ![p] = None]
   /\ Goto(p, "idle")
-  /\ UNCHANGED <<key, obj, tmp, calls, wg, cval, res>>
+  /\ UNCHANGED <<mgr, key, obj, tmp, calls, wg, cval, res>>
 
 Terminated == \A p \in Procs : pc[p] = "idle" /\ n[p] = MaxCalls
 INext == \/ \E p \in Procs : \/ Begin(p) \/ PreCheck(p) \/ CreateCall(p) \/ Insert(p) \/ Wait(p) \/ RmCheck(p)
@@ -165,8 +177,8 @@ FnStartOK == \A p \in Procs :
   (pc[p] = "fnstart" \/ (pc[p] = "exec" /\ Algo = "sf")) => CanFnStart(Cid(p))
 FnEndOK   == \A p \in Procs : pc[p] = "fn" => CanFnEnd(Cid(p), Cid(p), 0)
 CallEndOK == \A p \in Procs : pc[p] = "ret" => CanCallEnd(Cid(p), rv[p].v, rv[p].err, rv[p].fresh)
-\* a joiner is parked only while an execution for its own key is registered
+\* a joiner is parked only while an execution for its own key on its own object is registered
 WaitOK    == \A p \in Procs : (pc[p] = "wait" /\ wg[obj[p]] > 0) =>
-               \E q \in Procs : q # p /\ key[q] = key[p] /\ obj[q] = obj[p]
+               \E q \in Procs : q # p /\ key[q] = key[p] /\ mgr[q] = mgr[p] /\ obj[q] = obj[p]
                                 /\ pc[q] \in {"exec", "fnstart", "fn", "store", "del", "done"}
 =============================================================================
